@@ -24,73 +24,87 @@ Lemma py_set_app_at {A} (pre : list A) x rest v i : Z.of_nat (length pre) = i ->
   py_set (pre ++ x :: rest) i v = Ok (pre ++ v :: rest).
 Proof. intros <-. apply py_set_app. Qed.
 
-Lemma wday_loop_spec ywd wk : 0 <= ywd <= 6 -> 0 <= wk <= 6 ->
-  forall n i pre rest suf, 0 <= i -> i + Z.of_nat n < 378 ->
+(* the loop stops after min(n, days to the end of the wkst-week, days to 9999-12-31) steps (fix 8ced7a9) *)
+Lemma wday_loop_spec ywd wk yo : 0 <= ywd <= 6 -> 0 <= wk <= 6 ->
+  forall n i pre rest suf, 0 <= i -> i + Z.of_nat n < 378 -> yo + i <= max_ord ->
   Z.of_nat (length pre) = i -> length rest = n ->
-  (* the loop stops after min(n, week_rest) steps *)
-  let L := Z.min (Z.of_nat n) (week_rest ywd wk i) in
+  let L := Z.min (Z.min (Z.of_nat n) (week_rest ywd wk i)) (max_ord + 1 - (yo + i)) in
   exists rest',
-    wday_loop n (wdm_of ywd) wk (pre ++ rest ++ suf) i =
+    wday_loop n (wdm_of ywd) wk yo (pre ++ rest ++ suf) i =
     Ok (pre ++ map Some (zrange i (i + L)) ++ rest' ++ suf, i + L) /\
     length rest' = (n - Z.to_nat L)%nat /\ rest' = skipn (Z.to_nat L) rest.
 Proof.
-  intros Hy Hk. induction n as [|n IH]; intros i pre rest suf Hi Hn Hl Hr L.
+  intros Hy Hk. induction n as [|n IH]; intros i pre rest suf Hi Hn Hmx Hl Hr L.
   - destruct rest; [|discriminate Hr]. unfold L. cbn [wday_loop].
     assert (W : 1 <= week_rest ywd wk i <= 7) by (unfold week_rest; lia).
-    replace (Z.min (Z.of_nat 0) (week_rest ywd wk i)) with 0 by lia.
+    replace (Z.min (Z.min (Z.of_nat 0) (week_rest ywd wk i)) (max_ord + 1 - (yo + i))) with 0 by lia.
     exists []. rewrite Z.add_0_r. unfold zrange. rewrite Z.sub_diag. cbn [Z.to_nat zrange_nat map app skipn length].
     repeat split; reflexivity.
   - destruct rest as [|x rest]; [discriminate Hr|]. cbn [length] in Hr. injection Hr as Hr.
     cbn [wday_loop]. cbn [app]. rewrite (py_set_app_at pre x (rest ++ suf) (Some i) i Hl). cbn [bind].
     rewrite (wdm_nth ywd (i + 1) Hy ltac:(lia)). cbn [bind].
     assert (W : 1 <= week_rest ywd wk i <= 7) by (unfold week_rest; lia).
+    assert (STOP : forall Lone : Z.min (Z.min (Z.of_nat (S n)) (week_rest ywd wk i)) (max_ord + 1 - (yo + i)) = 1,
+              exists rest',
+                Ok (pre ++ Some i :: rest ++ suf, i + 1) =
+                Ok (pre ++ map Some (zrange i (i + L)) ++ rest' ++ suf, i + L) /\
+                length rest' = (S n - Z.to_nat L)%nat /\ rest' = skipn (Z.to_nat L) (x :: rest)).
+    { intros Lone. unfold L. rewrite Lone. exists rest. unfold zrange.
+      replace (Z.to_nat (i + 1 - i)) with 1%nat by lia.
+      cbn [zrange_nat map app Z.to_nat Pos.to_nat Pos.iter_op Nat.add skipn].
+      split; [reflexivity|]. split; [lia|reflexivity]. }
     destruct ((ywd + (i + 1)) mod 7 =? wk) eqn:EW.
     + (* the next day starts a new week: stop *)
       assert (W1 : week_rest ywd wk i = 1) by (unfold week_rest; lia).
-      unfold L. replace (Z.min (Z.of_nat (S n)) (week_rest ywd wk i)) with 1 by lia.
-      exists rest. unfold zrange. replace (Z.to_nat (i + 1 - i)) with 1%nat by lia.
-      cbn [zrange_nat map app Z.to_nat Pos.to_nat Pos.iter_op Nat.add skipn].
-      split; [reflexivity|]. split; [lia|reflexivity].
-    + assert (W1 : week_rest ywd wk (i + 1) = week_rest ywd wk i - 1) by (unfold week_rest; lia).
-      replace (pre ++ Some i :: rest ++ suf) with ((pre ++ [Some i]) ++ rest ++ suf)
-        by (rewrite <- app_assoc; reflexivity).
-      destruct (IH (i + 1) (pre ++ [Some i]) rest suf ltac:(lia) ltac:(lia)
-                  ltac:(rewrite app_length; cbn [length]; lia) Hr) as (rest' & E & Lr & Sr).
-      cbv zeta in E, Lr, Sr. rewrite W1 in E, Lr, Sr. rewrite E.
-      set (L1 := Z.min (Z.of_nat n) (week_rest ywd wk i - 1)) in *.
-      assert (EL : Z.min (Z.of_nat (S n)) (week_rest ywd wk i) = L1 + 1) by (unfold L1; lia).
-      unfold L. rewrite EL. exists rest'.
-      assert (HL1 : 0 <= L1) by (unfold L1; lia).
-      split.
-      * f_equal. f_equal; [|lia]. rewrite <- app_assoc. cbn [app]. f_equal.
-        unfold zrange. replace (Z.to_nat (i + (L1 + 1) - i)) with (S (Z.to_nat (i + 1 + L1 - (i + 1)))) by lia.
-        cbn [zrange_nat map]. reflexivity.
-      * replace (Z.to_nat (L1 + 1)) with (S (Z.to_nat L1)) by lia. cbn [skipn Nat.sub]. split; [exact Lr|exact Sr].
+      apply STOP. lia.
+    + destruct (max_ord <? yo + (i + 1)) eqn:EM.
+      * (* the next day would be 10000-01-01: stop *)
+        apply STOP. lia.
+      * assert (W1 : week_rest ywd wk (i + 1) = week_rest ywd wk i - 1) by (unfold week_rest; lia).
+        replace (pre ++ Some i :: rest ++ suf) with ((pre ++ [Some i]) ++ rest ++ suf)
+          by (rewrite <- app_assoc; reflexivity).
+        destruct (IH (i + 1) (pre ++ [Some i]) rest suf ltac:(lia) ltac:(lia) ltac:(lia)
+                    ltac:(rewrite app_length; cbn [length]; lia) Hr) as (rest' & E & Lr & Sr).
+        cbv zeta in E, Lr, Sr. rewrite W1 in E, Lr, Sr. rewrite E.
+        set (L1 := Z.min (Z.min (Z.of_nat n) (week_rest ywd wk i - 1)) (max_ord + 1 - (yo + (i + 1)))) in *.
+        assert (EL : Z.min (Z.min (Z.of_nat (S n)) (week_rest ywd wk i)) (max_ord + 1 - (yo + i)) = L1 + 1)
+          by (unfold L1; lia).
+        unfold L. rewrite EL. exists rest'.
+        assert (HL1 : 0 <= L1) by (unfold L1; lia).
+        split.
+        -- f_equal. f_equal; [|lia]. rewrite <- app_assoc. cbn [app]. f_equal.
+           unfold zrange. replace (Z.to_nat (i + (L1 + 1) - i)) with (S (Z.to_nat (i + 1 + L1 - (i + 1)))) by lia.
+           cbn [zrange_nat map]. reflexivity.
+        -- replace (Z.to_nat (L1 + 1)) with (S (Z.to_nat L1)) by lia. cbn [skipn Nat.sub]. split; [exact Lr|exact Sr].
 Qed.
 
+(* the week's day set: from the cursor to the end of its wkst-week, cut at 9999-12-31 *)
 Theorem wdayset_correct : forall rl ii y year month day,
   ii_for ii y -> 0 <= wkst rl <= 6 -> valid_ymd year month day = true ->
   let i0 := ord_of_ymd year month day - jan1 y in
   0 <= i0 < year_len y ->
-  let L := week_rest (weekday_of_ord (jan1 y)) (wkst rl) i0 in
+  let L := Z.min (week_rest (weekday_of_ord (jan1 y)) (wkst rl) i0) (max_ord + 1 - (jan1 y + i0)) in
   exists ds suf,
     wdayset rl ii year month day = Ok (ds, i0, i0 + L) /\
     ds = repeat None (Z.to_nat i0) ++ map Some (zrange i0 (i0 + L)) ++ suf /\ 1 <= L <= 7.
 Proof.
   intros rl ii y year month day F Hk Hv i0 Hi L.
+  pose proof (ord_of_ymd_range _ _ _ Hv) as Ro.
   unfold wdayset, date_ord. rewrite Hv. cbn [bind]. rewrite (f_yo ii y F). fold i0.
   rewrite (f_wdm ii y F), (f_ylen ii y F).
   pose proof (weekday_of_ord_range (jan1 y)) as Hy.
   assert (YL : 365 <= year_len y <= 366) by (unfold year_len; destruct (is_leap y); lia).
-  assert (W : 1 <= L <= 7) by (unfold L, week_rest; lia).
+  assert (W : 1 <= L <= 7) by (unfold L, week_rest, i0; lia).
   unfold py_repeat.
   replace (Z.to_nat (year_len y + 7)) with (Z.to_nat i0 + (7 + Z.to_nat (year_len y - i0)))%nat by lia.
   rewrite !repeat_app_split.
-  destruct (wday_loop_spec (weekday_of_ord (jan1 y)) (wkst rl) Hy Hk 7 i0
+  destruct (wday_loop_spec (weekday_of_ord (jan1 y)) (wkst rl) (jan1 y) Hy Hk 7 i0
               (repeat None (Z.to_nat i0)) (repeat None 7) (repeat None (Z.to_nat (year_len y - i0)))
-              ltac:(lia) ltac:(lia) ltac:(rewrite repeat_length; lia) ltac:(apply repeat_length))
+              ltac:(lia) ltac:(lia) ltac:(unfold i0; lia) ltac:(rewrite repeat_length; lia) ltac:(apply repeat_length))
     as (rest' & E & _ & _).
-  cbv zeta in E. fold L in E. replace (Z.min (Z.of_nat 7) L) with L in E by lia.
+  cbv zeta in E.
+  replace (Z.min (Z.min (Z.of_nat 7) (week_rest (weekday_of_ord (jan1 y)) (wkst rl) i0)) (max_ord + 1 - (jan1 y + i0)))
+    with L in E by (unfold L, week_rest; lia).
   rewrite E. cbn [bind fst snd].
   exists (repeat None (Z.to_nat i0) ++ map Some (zrange i0 (i0 + L)) ++ rest' ++ repeat None (Z.to_nat (year_len y - i0))),
          (rest' ++ repeat None (Z.to_nat (year_len y - i0))).
@@ -263,6 +277,10 @@ Record wfam (r : raw) : Prop := mk_wfam {
 Definition ws0 (r : raw) : Z := sp_ord0 r - (weekday_of_ord (sp_ord0 r) - r_wkst r) mod 7.
 Definition wlo (r : raw) (k : Z) : Z := ws0 r + 7 * (k * r_interval r).
 Definition wcur (r : raw) (k : Z) : Z := Z.max (sp_ord0 r) (wlo r k).
+(* one past the last representable day of period k (the week that contains 9999-12-31 ends there, fix 8ced7a9);
+   the first representable day of period k (the week that contains 0001-01-01 begins there, fix 3426f68) *)
+Definition wend (r : raw) (k : Z) : Z := Z.min (wlo r k + 6) max_ord + 1.
+Definition wbeg (r : raw) (k : Z) : Z := Z.max (wlo r k) 1.
 
 Lemma wlo_succ r k : wlo r (k + 1) = wlo r k + 7 * r_interval r.
 Proof. unfold wlo. ring. Qed.
@@ -318,11 +336,11 @@ Qed.
 
 (* the specification's step for WEEKLY: the days of period k from the cursor on -- the earlier days of
    the start's week precede the start *)
-Lemma weekly_step_items r k : spec_wf r = true -> r_freq r = WEEKLY -> r_bysetpos r = None -> 0 <= k ->
-  wlo r k + 6 <= max_ord ->
+Lemma weekly_step_items_g r k : spec_wf r = true -> r_freq r = WEEKLY -> r_bysetpos r = None -> 0 <= k ->
+  wcur r k <= max_ord ->
   step_items r k = filter (inst_le (sp_start r))
     (flat_map (fun o => map (fun t => (o, t)) (period_times r 0))
-              (filter (day_ok r) (zrange (wcur r k) (wlo r k + 7)))).
+              (filter (day_ok r) (zrange (wcur r k) (wend r k)))).
 Proof.
   intros HW Hfr Hsp Hk Hmax.
   assert (Hwf : 1 <= r_interval r /\ 0 <= r_wkst r <= 6 /\ valid_ymd (r_y r) (r_m r) (r_d r) = true).
@@ -337,10 +355,9 @@ Proof.
   unfold step_items, is_coarse, select_pos. rewrite Hfr, Hsp. change (WEEKLY <=? DAILY) with true. cbv iota.
   unfold cands_coarse, period_days. rewrite Hfr.
   change (WEEKLY =? YEARLY) with false. change (WEEKLY =? MONTHLY) with false. change (WEEKLY =? WEEKLY) with true.
-  cbv iota zeta. fold (ws0 r). fold (wlo r k).
-  replace (Z.min (wlo r k + 6) max_ord + 1) with (wlo r k + 7) by lia.
+  cbv iota zeta. fold (ws0 r). fold (wlo r k). fold (wend r k).
   rewrite flat_map_filter.
-  rewrite (zrange_cut (Z.max (wlo r k) 1) (wcur r k) (wlo r k + 7)) by lia.
+  rewrite (zrange_cut (Z.max (wlo r k) 1) (wcur r k) (wend r k)) by (unfold wend; lia).
   rewrite filter_app, flat_map_app, filter_app.
   match goal with |- ?a ++ ?b = ?c => assert (E : a = []); [|rewrite E; reflexivity] end.
   assert (Hlt : forall o, In o (zrange (Z.max (wlo r k) 1) (wcur r k)) -> o < sp_ord0 r).
@@ -353,6 +370,24 @@ Proof.
     unfold inst_le at 1, sp_start. cbn [fst snd].
     replace ((sp_ord0 r <? o) || (sp_ord0 r =? o) && (sp_sod0 r <=? t0)) with false by lia. exact IHt.
   - apply IH. intros o' Ho'. apply Hlt. right. exact Ho'.
+Qed.
+
+Lemma weekly_step_items r k : spec_wf r = true -> r_freq r = WEEKLY -> r_bysetpos r = None -> 0 <= k ->
+  wlo r k + 6 <= max_ord ->
+  step_items r k = filter (inst_le (sp_start r))
+    (flat_map (fun o => map (fun t => (o, t)) (period_times r 0))
+              (filter (day_ok r) (zrange (wcur r k) (wlo r k + 7)))).
+Proof.
+  intros HW Hfr Hsp Hk Hmax.
+  assert (Hwf : 1 <= r_interval r /\ 0 <= r_wkst r <= 6).
+  { pose proof HW as HW'. unfold spec_wf in HW'.
+    repeat match type of HW' with _ && _ = true =>
+      let H := fresh "W" in apply andb_true_iff in HW'; destruct HW' as [HW' H] end.
+    unfold between in *. lia. }
+  destruct Hwf as (Hitv & Hwk).
+  destruct (wcur_week r k Hitv Hwk Hk) as [_ Bc].
+  rewrite (weekly_step_items_g r k HW Hfr Hsp Hk ltac:(lia)).
+  replace (wend r k) with (wlo r k + 7) by (unfold wend; lia). reflexivity.
 Qed.
 
 Definition at_pass_w (r : raw) (rl : rule) (k : Z) (cnt : option Z) (s : state) : Prop :=
@@ -368,9 +403,9 @@ Proof. intros. lia. Qed.
 (* a WEEKLY pass: day set, filter (possibly reaching into next January), gate, against the
    specification's step *)
 Lemma weekly_pass_full : forall r rl k cnt s,
-  normalize r = Ok rl -> wfam r -> at_pass_w r rl k cnt s -> 0 <= k -> wlo r k + 6 <= max_ord ->
+  normalize r = Ok rl -> wfam r -> at_pass_w r rl k cnt s -> 0 <= k ->
   let y := c_year s in
-  let st := wcur r k - jan1 y in let en := wlo r k + 7 - jan1 y in
+  let st := wcur r k - jan1 y in let en := wend r k - jan1 y in
   exists ds ds' f out' c1 s1 c1' b1,
     getdayset rl (c_ii s) y (c_month s) (c_day s) = Ok (ds, st, en) /\
     filter_loop rl (c_ii s) (py_slice ds st en) ds false = Ok (ds', f) /\
@@ -379,8 +414,9 @@ Lemma weekly_pass_full : forall r rl k cnt s,
     (s1 = None -> b1 = false /\ c1 = c1') /\ (s1 <> None -> b1 = true \/ until_lt_start r) /\
     (sp_after_until r (wlo r k, 0) = true -> out' = c_out s).
 Proof.
-  intros r rl k cnt s HN [HW Hfr Hp Hsp Hs He] (Av & Ao & Aw & Ar & At & Ac) Hk Hmax y st en.
+  intros r rl k cnt s HN [HW Hfr Hp Hsp Hs He] (Av & Ao & Aw & Ar & At & Ac) Hk y st en.
   fold y in Av, Ao, Ar.
+  assert (Hmax : wcur r k <= max_ord) by (pose proof (ord_of_ymd_range _ _ _ Av) as RR; rewrite Ao in RR; lia).
   destruct (normalize_misc r rl HN) as (_ & _ & _ & _ & _ & _ & Nu).
   pose proof (normalize_freq r rl HN) as Nfr. rewrite Hfr in Nfr.
   pose proof (normalize_wkst r rl HN) as Nwk.
@@ -399,9 +435,9 @@ Proof.
   destruct (wdayset_correct rl (c_ii s) y y (c_month s) (c_day s) F ltac:(rewrite Nwk; exact Hwk) Av
               ltac:(rewrite Ao; exact Hi)) as (ds & suf & E1 & Eds & _).
   rewrite Ao in E1, Eds. fold st in E1, Eds.
-  assert (EL : st + week_rest (weekday_of_ord (jan1 y)) (wkst rl) st = en).
+  assert (EL : st + Z.min (week_rest (weekday_of_ord (jan1 y)) (wkst rl) st) (max_ord + 1 - (jan1 y + st)) = en).
   { unfold week_rest. rewrite <- wd_shift. replace (jan1 y + st) with (wcur r k) by (unfold st; lia).
-    rewrite Nwk, Ew. unfold st, en. lia. }
+    rewrite Nwk, Ew. unfold st, en, wend. lia. }
   rewrite EL in E1, Eds.
   assert (G : getdayset rl (c_ii s) y (c_month s) (c_day s) = Ok (ds, st, en)).
   { unfold getdayset. rewrite Nfr. change (WEEKLY =? YEARLY) with false. change (WEEKLY =? MONTHLY) with false.
@@ -411,16 +447,16 @@ Proof.
   assert (HRj : forall i, st <= i < en -> day_rejected rl (c_ii s) i = Ok (rej i)).
   { intros i Hi'. destruct (Z_lt_ge_dec i (year_len y)) as [Hlt|Hge].
     - apply (day_filter_correct_guarded r rl y (c_month s) (c_ii s) i HN HW Hp Hs (or_introl He) Hy Ar). lia.
-    - apply (day_filter_ext r rl y (c_month s) (c_ii s) i HN HW Hp Hs He Hy Ar); [unfold st, en in *; lia|].
+    - apply (day_filter_ext r rl y (c_month s) (c_ii s) i HN HW Hp Hs He Hy Ar); [unfold st, en, wend in *; lia|].
       unfold used_index, shape_of. cbn [sh_ylen sh_ywd].
       rewrite <- wd_shift.
       replace (jan1 y + i) with (wlo r k + (jan1 y + i - wlo r k)) by lia.
       rewrite wd_shift, (wlo_weekday r k Hwk).
-      rewrite (week_off (r_wkst r) (jan1 y + i - wlo r k) Hwk) by (unfold st, en in *; lia).
-      unfold st, en in *. lia. }
+      rewrite (week_off (r_wkst r) (jan1 y + i - wlo r k) Hwk) by (unfold st, en, wend in *; lia).
+      unfold st, en, wend in *. lia. }
   set (pre := repeat (@None Z) (Z.to_nat st)).
   assert (Lp : Z.of_nat (length pre) = st) by (unfold pre; rewrite repeat_length; lia).
-  assert (Hse : st <= en) by (unfold st, en; lia).
+  assert (Hse : st <= en) by (unfold st, en, wend; lia).
   assert (SL : py_slice ds st en = map Some (zrange st en)).
   { rewrite Eds. fold pre. pose proof (py_slice_mid pre (map Some (zrange st en)) suf) as P.
     rewrite Lp in P. rewrite map_length in P. unfold zrange in P at 2. rewrite zrange_nat_length in P.
@@ -456,12 +492,12 @@ Proof.
     - intros i Hi'. rewrite somes_map_mark in Hi'. apply filter_In in Hi'. destruct Hi' as [Hi' _].
       unfold zrange in Hi'. pose proof (In_zrange_nat_bounds _ _ _ Hi') as Bi.
       unfold from_ordinal.
-      replace ((1 <=? jan1 y + i) && (jan1 y + i <=? max_ord)) with true by (unfold st, en in *; lia).
+      replace ((1 <=? jan1 y + i) && (jan1 y + i <=? max_ord)) with true by (unfold st, en, wend in *; lia).
       reflexivity. }
   assert (ES : step_items r k = filter (inst_le (sp_start r)) L).
-  { rewrite (weekly_step_items r k HW Hfr Hsp Hk Hmax). unfold L.
+  { rewrite (weekly_step_items_g r k HW Hfr Hsp Hk Hmax). unfold L.
     replace (jan1 y + st) with (wcur r k) by (unfold st; lia).
-    replace (jan1 y + en) with (wlo r k + 7) by (unfold en; lia). reflexivity. }
+    replace (jan1 y + en) with (wend r k) by (unfold en; lia). reflexivity. }
   pose proof (gate_take_gen rl r S1 Nu L cnt (c_out s)) as GT.
   assert (DU : sp_after_until r (wlo r k, 0) = true -> fst (fst (gate_list rl L cnt (c_out s))) = c_out s).
   { intros AU. destruct (gate_list_all_after rl r Nu L cnt (c_out s)) as (stp & Eg & _).
@@ -584,17 +620,17 @@ Qed.
 
 (* one pass of the loop for the WEEKLY family *)
 Lemma weekly_step : forall r rl k cnt s,
-  normalize r = Ok rl -> wfam r -> at_pass_w r rl k cnt s -> 0 <= k -> wlo r k + 6 <= max_ord ->
+  normalize r = Ok rl -> wfam r -> at_pass_w r rl k cnt s -> 0 <= k ->
   exists acc' cnt' b, sp_take r (step_items r k) cnt (c_out s) = (acc', cnt', b) /\
     ((exists s', step rl s = inl s' /\ at_pass_w r rl (k + 1) cnt' s' /\ c_out s' = acc' /\ b = false) \/
      (exists t, step rl s = inr (acc', t) /\
                 (b = true \/ until_lt_start r \/ max_ord < wlo r (k + 1)))) /\
     (sp_after_until r (wlo r k, 0) = true -> acc' = c_out s).
 Proof.
-  intros r rl k cnt s HN Y A Hk Hmax.
+  intros r rl k cnt s HN Y A Hk.
   pose proof Y as [HW Hfr Hp Hsp Hs He].
   destruct (normalize_misc r rl HN) as (_ & Nsp & _ & _ & _ & _ & _).
-  destruct (weekly_pass_full r rl k cnt s HN Y A Hk Hmax)
+  destruct (weekly_pass_full r rl k cnt s HN Y A Hk)
     as (ds & ds' & f & out' & c1 & s1 & c1' & b1 & E1 & E2 & E3 & E4 & G2 & G3 & G4).
   pose proof A as (Av & Ao & Aw & Ar & At & Ac).
   exists out', c1', b1. split; [exact E4|]. split; [|exact G4].
@@ -628,36 +664,34 @@ Qed.
 
 Lemma weekly_run_dead_until : forall r rl limit n k cnt s,
   normalize r = Ok rl -> wfam r -> at_pass_w r rl k cnt s -> 0 <= k ->
-  (forall j, k <= j < k + Z.of_nat n -> wlo r j + 6 <= max_ord) ->
   sp_after_until r (wlo r k, 0) = true ->
   fst (run rl limit n s) = c_out s.
 Proof.
-  intros r rl limit n. induction n as [|n IH]; intros k cnt s HN Y A Hk Hmax AU; cbn [run].
+  intros r rl limit n. induction n as [|n IH]; intros k cnt s HN Y A Hk AU; cbn [run].
   - reflexivity.
   - destruct (limit <=? zlen (c_out s)); [reflexivity|].
     pose proof Y as [HW Hfr Hp Hsp Hs He]. pose proof (wf_itv r HW) as Hitv.
-    destruct (weekly_step r rl k cnt s HN Y A Hk (Hmax k ltac:(lia))) as (acc' & cnt' & b & ET & Hcase & Hau).
+    destruct (weekly_step r rl k cnt s HN Y A Hk) as (acc' & cnt' & b & ET & Hcase & Hau).
     specialize (Hau AU).
     destruct Hcase as [(s' & ES & A' & EO & Eb)|(t & ES & _)].
     + rewrite ES. rewrite (IH (k + 1) cnt' s' HN Y A' ltac:(lia)).
       * rewrite EO. exact Hau.
-      * intros j Hj. apply Hmax. lia.
       * apply (after_until_mono r _ _ AU). unfold inst_le. cbn [fst snd]. rewrite wlo_succ. lia.
     + rewrite ES. cbn [fst]. exact Hau.
 Qed.
 
 Lemma weekly_run_is_spec : forall r rl limit n k cnt s,
   normalize r = Ok rl -> wfam r -> at_pass_w r rl k cnt s -> 0 <= k ->
-  (forall j, k <= j < k + Z.of_nat n -> wlo r j + 6 <= max_ord) ->
   fst (run rl limit n s) = fst (spec_loop r limit n k cnt (c_out s)).
 Proof.
-  intros r rl limit n. induction n as [|n IH]; intros k cnt s HN Y A Hk Hmax.
+  intros r rl limit n. induction n as [|n IH]; intros k cnt s HN Y A Hk.
   - reflexivity.
   - pose proof Y as [HW Hfr Hp Hsp Hs He]. pose proof (wf_itv r HW) as Hitv.
     pose proof A as (Av & Ao & Aw & Ar & At & Ac).
-    pose proof (Hmax k ltac:(lia)) as Hmk.
+    assert (Hmk : wlo r k <= max_ord).
+    { pose proof (ord_of_ymd_range _ _ _ Av) as RR. rewrite Ao in RR. unfold wcur in RR. lia. }
     destruct (sp_after_until r (wlo r k, 0)) eqn:AU.
-    + rewrite (weekly_run_dead_until r rl limit (S n) k cnt s HN Y A Hk Hmax AU).
+    + rewrite (weekly_run_dead_until r rl limit (S n) k cnt s HN Y A Hk AU).
       cbn [spec_loop]. destruct (limit <=? zlen (c_out s)); [reflexivity|].
       rewrite (step_lo_weekly r k Hfr).
       replace (max_ord <? wlo r k) with false by lia. rewrite AU. reflexivity.
@@ -670,24 +704,22 @@ Proof.
         pose proof (step_dead rl s D) as SD. destruct (step rl s) as [s'|[out t]].
         -- destruct SD as [E D']. rewrite (run_dead rl limit n s' D'). exact E.
         -- exact SD.
-      * destruct (weekly_step r rl k cnt s HN Y A Hk Hmk) as (acc' & cnt' & b & ET & Hcase & _).
+      * destruct (weekly_step r rl k cnt s HN Y A Hk) as (acc' & cnt' & b & ET & Hcase & _).
         rewrite ET. destruct Hcase as [(s' & ES & A' & EO & Eb)|(t & ES & Hb)].
-        -- rewrite ES. subst b. rewrite <- EO. apply IH; try assumption; [lia|].
-           intros j Hj. apply Hmax. lia.
+        -- rewrite ES. subst b. rewrite <- EO. apply IH; try assumption. lia.
         -- rewrite ES. cbn [fst]. destruct b; [reflexivity|].
            destruct Hb as [Hb|[UL|Hmx]]; [discriminate Hb| |].
            ++ symmetry. apply (spec_loop_dead_until r limit UL).
            ++ symmetry. apply (spec_loop_beyond_weekly r limit n (k + 1) cnt' acc' Hfr Hmx).
 Qed.
 
-(* rrule_iter_correct for the WEEKLY family: every number n of passes whose periods 0 .. n-1 end
-   within 9999-12-31 (for a start in year y that is every n <= 52 * (9999 - y) / interval) *)
+(* rrule_iter_correct for the WEEKLY family: every rule, every number n of passes (the week that contains
+   9999-12-31 consists of its representable days, fix 8ced7a9) *)
 Theorem weekly_iter_correct : forall r rl limit n,
   normalize r = Ok rl -> wfam r ->
-  (n <> 0%nat -> wlo r (Z.of_nat n - 1) + 6 <= max_ord) ->
   fst (iterate rl limit n) = fst (spec_iter r limit n).
 Proof.
-  intros r rl limit n HN Y Hn.
+  intros r rl limit n HN Y.
   pose proof Y as [HW Hfr Hp Hsp Hs He].
   destruct (normalize_misc r rl HN) as (Ni & Nsp & Ny & Nm & Nd & Nc & Nu).
   pose proof (normalize_freq r rl HN) as Nfr. rewrite Hfr in Nfr.
@@ -717,9 +749,7 @@ Proof.
     split; [exact V|]. split; [rewrite C0; reflexivity|]. split; [rewrite C0; reflexivity|].
     split; [exact R0|]. split; reflexivity. }
   assert (Q : fst (run rl limit n s0) = fst (spec_loop r limit n 0 (r_count r) (c_out s0))).
-  { apply (weekly_run_is_spec r rl limit n 0 (r_count r) s0 HN Y A0 ltac:(lia)).
-    intros j Hj. pose proof (Hn ltac:(lia)) as B.
-    pose proof (wlo_mono r j (Z.of_nat n - 1) Hitv ltac:(lia)). lia. }
+  { apply (weekly_run_is_spec r rl limit n 0 (r_count r) s0 HN Y A0 ltac:(lia)). }
   change (c_out s0) with (@nil instant) in Q.
   destruct (run rl limit n s0) as [out t]. destruct (spec_loop r limit n 0 (r_count r) []) as [acc t'].
   cbn [fst] in *. rewrite Q. reflexivity.
